@@ -266,16 +266,38 @@ func genMTU(r *vgen.Rand, small bool) int {
 
 // ---------------------------------------------------------------- printing
 
+// pN prints an N literal (the case files open uint63_scope for the byte words).
+func pN(v uint64) string { return fmt.Sprintf("%d%%N", v) }
+
+// pBytes prints a byte string as (hx len [words]) with seven bytes per primitive
+// integer (Lib/GwHex.v).
+func pBytes(b []byte) string {
+	var sb strings.Builder
+	fmt.Fprintf(&sb, "(hx %d%%N [", len(b))
+	for i := 0; i < len(b); i += 7 {
+		if i > 0 {
+			sb.WriteByte(';')
+		}
+		j := i + 7
+		if j > len(b) {
+			j = len(b)
+		}
+		fmt.Fprintf(&sb, "0x%x", b[i:j])
+	}
+	sb.WriteString("])")
+	return sb.String()
+}
+
 func printEops(ops []eop) string {
 	return vgen.ListOf(ops, func(o eop) string {
 		if o.write {
-			return vgen.App("EWrite", vgen.Bytes(o.pkt))
+			return vgen.App("EWrite", pBytes(o.pkt))
 		}
 		return "ERead"
 	})
 }
 
-func printFrames(fs [][]byte) string { return vgen.ListOf(fs, vgen.Bytes) }
+func printFrames(fs [][]byte) string { return vgen.ListOf(fs, pBytes) }
 
 func printOut(out [][][]byte) string { return vgen.ListOf(out, printFrames) }
 
@@ -334,9 +356,9 @@ func printPlan(plan []dop) string {
 	return vgen.ListOf(plan, func(d dop) string {
 		switch d.kind {
 		case 0:
-			return vgen.App("DIdx", vgen.N(uint64(d.s)), vgen.N(uint64(d.i)))
+			return vgen.App("DIdx", pN(uint64(d.s)), pN(uint64(d.i)))
 		case 1:
-			return vgen.App("DRaw", vgen.Bytes(d.raw))
+			return vgen.App("DRaw", pBytes(d.raw))
 		}
 		return "DTick"
 	})
@@ -511,12 +533,12 @@ func genPlan(r *vgen.Rand, frames [][][]byte, mode int) []dop {
 
 func main() {
 	run := vgen.Flags("C41")
-	run.Imports = []string{"Model.GwFrame"}
+	run.Imports = []string{"Lib.GwHex", "Model.GwFrame"}
 	run.CheckFn = "GwFrame.check"
 	run.DiagFn = "GwFrame.diag"
 	run.CaseType = "GwFrame.case"
-	run.Prelude = "Import GwFrame."
-	run.ShardSize = 60
+	run.Prelude = "From Coq Require Import Uint63.\nImport GwFrame.\nLocal Open Scope uint63_scope."
+	run.ShardSize = 24
 	run.Rule = "CEnc: seeded write/read schedules (valid v4/v6 packets with correct length fields, " +
 		"~15% invalid ones, reads only when they cannot block), frame sizes 56..1500 biased to 57..256; " +
 		"non-trivial = some packet spans two or more frames or an invalid packet was skipped. " +
@@ -589,11 +611,11 @@ func main() {
 		desc := map[string]any{"mtu": s.mtu, "sess": s.sess, "stream": s.stream, "ops": descOps(s.ops),
 			"frames": len(s.frames()), "ring_full": s.ringFull}
 		if s.hung {
-			run.Violate(run.Add("enc", "(CEnc 0 0 0 [] [] [])", "hung", false, desc), "encoder.Read blocked or never returned nil", desc)
+			run.Violate(run.Add("enc", "(CEnc 0%N 0%N 0%N [] [] [])", "hung", false, desc), "encoder.Read blocked or never returned nil", desc)
 			continue
 		}
-		reads := vgen.ListOf(s.reads, func(f []byte) string { return vgen.Opt(vgen.Bytes(f), f != nil) })
-		term := vgen.App("CEnc", vgen.N(uint64(s.mtu)), vgen.N(uint64(s.sess)), vgen.N(uint64(s.stream)),
+		reads := vgen.ListOf(s.reads, func(f []byte) string { return vgen.Opt(pBytes(f), f != nil) })
+		term := vgen.App("CEnc", pN(uint64(s.mtu)), pN(uint64(s.sess)), pN(uint64(s.stream)),
 			printEops(s.ops), reads, printFrames(s.drain))
 		skipped := false
 		for _, o := range s.ops {
@@ -683,7 +705,7 @@ func main() {
 		}
 		desc["emitted"] = emitted
 		senders := vgen.ListOf(ss, func(s *senderRun) string {
-			return vgen.App("SC", vgen.N(uint64(s.mtu)), vgen.N(uint64(s.sess)), vgen.N(uint64(s.stream)),
+			return vgen.App("SC", pN(uint64(s.mtu)), pN(uint64(s.sess)), pN(uint64(s.stream)),
 				printEops(s.ops), printFrames(s.frames()))
 		})
 		term := vgen.App("CE2E", senders, printPlan(plan), printOut(out))
@@ -771,7 +793,7 @@ func main() {
 		}
 		rops := vgen.ListOf(ops, func(d dop) string {
 			if d.kind == 1 {
-				return vgen.App("RFrame", vgen.Bytes(d.raw))
+				return vgen.App("RFrame", pBytes(d.raw))
 			}
 			return "RCleanup"
 		})
